@@ -810,13 +810,20 @@ func (r *Runner) resolveNotEqualsBinaryExpression(expr *BinaryExpression, v1, v2
 
 // checkComparable reports an error where Go's == on the two values would panic
 // (arrays, maps or functions of the same type).
-func checkComparable(v1, v2 interface{}) error {
+func checkComparable(v1, v2 interface{}) (err error) {
 	if v1 == nil || v2 == nil {
 		return nil
 	}
 	if t := reflect.TypeOf(v1); t == reflect.TypeOf(v2) && !t.Comparable() {
 		return fmt.Errorf("values of type %T are not comparable", v1)
 	}
+	// a comparable type may still hold an uncomparable value in an interface field
+	defer func() {
+		if recover() != nil {
+			err = fmt.Errorf("values of type %T are not comparable", v1)
+		}
+	}()
+	_ = v1 == v2
 	return nil
 }
 
